@@ -213,6 +213,18 @@ def run_case(case, seed):
                             r.true(key + ':rank-cap', all(max(s.ranks) <= mr for s in sol[1:] if meta_problem(s) is None))
                 finally:
                     STATE['mon'] = None
+        if max(rk) > 1 and nz == 0 and h == 0.05:
+            # a rank cap BELOW the ranks of the initial state: whatever the scheme then does to the evolved states, the caller's
+            # initial state must stay what it was and must head the returned list
+            for name, f in (('tdvp2site', ode.tdvp2site), ('tdvp', ode.tdvp)):
+                key = name + ':cap-below-initial-ranks'
+                with r.op(key + ':call'):
+                    cap_ = max(1, max(rk) - 1)
+                    sol = f(op, x0t, h, nsteps, threshold=0, max_rank=cap_, normalize=0)
+                    if r.true(key + ':length', isinstance(sol, list) and len(sol) == nsteps + 1):
+                        r.true(key + ':initial-identity', sol[0] is x0t)
+                        r.true(key + ':initial-unchanged', unchanged(x0t, sX), 'the initial state was modified (ranks %s, were %s)' % (x0t.ranks, rk))
+                        r.true(key + ':states-distinct', all(sol[k_] is not sol[0] for k_ in range(1, len(sol))), 'an evolved state is the initial-state object')
         if case.get('schmidt'):
             key = 'tdvp:coarse-threshold-at-maximal-ranks'
             with r.op(key + ':call'):
